@@ -70,7 +70,7 @@ def is_rw_write(name):
 
 
 def is_atomic_store(name):
-    return "::atomic::Atomic" in name and name.endswith("::store")
+    return "::atomic::Atomic" in name and name.endswith(("::store", "::swap", "::compare_exchange", "::compare_exchange_weak", "::fetch_max", "::fetch_min", "::fetch_update"))
 
 
 def is_atomic_load(name):
